@@ -22,12 +22,16 @@ def sh(cmd, cwd=None, env=None, timeout=1800):
     return p.returncode, p.stdout
 
 
+def worktree(prop, variant):
+    return f'/tmp/seed2_{prop}' if variant in ('C', 'D') else f'/tmp/seed_{prop}'
+
+
 def out_dir(prop, variant):
-    return f'/tmp/seed_{prop}/OUT/{variant}'
+    return f'{worktree(prop, variant)}/OUT/{variant}'
 
 
 def verify(prop, variant, run_suite=True):
-    wt = f'/tmp/seed_{prop}'
+    wt = worktree(prop, variant)
     od = out_dir(prop, variant)
     env = {'PYTHONPATH': f'{wt}/src', 'PYTHONDONTWRITEBYTECODE': '1'}
     res = {}
